@@ -371,6 +371,8 @@ pub struct FoundViolation {
 
 #[derive(Serialize, Deserialize, Debug, Clone)]
 pub enum WorkerLine {
+    /// a worker process starts here (a restarted worker appends to the same file: segment boundary)
+    Begin { start: u64 },
     Stats(WorkerStats),
     Found(FoundViolation),
     /// further occurrences of an already reported (rule, class)
@@ -388,6 +390,8 @@ pub struct WorkerArgs {
     pub journal: PathBuf,
     pub scratch: PathBuf,
     pub replay_dir: PathBuf,
+    /// run indices that are not executed (confirmed hangs / crashes, reported by the parent)
+    pub skip: Vec<u64>,
 }
 
 pub fn worker(prop: &dyn Prop, a: &WorkerArgs) {
@@ -408,13 +412,18 @@ pub fn worker(prop: &dyn Prop, a: &WorkerArgs) {
         idx += 1;
     }
     let mut since_flush = 0u64;
-    let mut emit = |out: &mut std::fs::File, l: &WorkerLine| {
+    let emit = |out: &mut std::fs::File, l: &WorkerLine| {
         let s = serde_json::to_string(l).unwrap();
         writeln!(out, "{}", s).ok();
         out.flush().ok();
     };
     let det_every = 17u64;
+    emit(&mut out, &WorkerLine::Begin { start: idx });
     while idx < total {
+        if a.skip.contains(&idx) {
+            idx += a.shards;
+            continue;
+        }
         std::fs::write(&a.journal, format!("{}", idx)).ok();
         let rs = run_seed(a.seed, prop.id(), idx);
         let mut rng = Rng::new(rs).sub("scenario");
@@ -679,6 +688,26 @@ struct Child {
     last_journal: String,
     last_change: Instant,
     restarts: u32,
+    /// wall-clock limit without progress before the worker is taken for hung
+    hang_limit: Duration,
+    /// the run index this worker was restarted for with a longer limit (a second hang there is confirmed)
+    retry_idx: Option<u64>,
+    /// run indices of this shard with a confirmed process-level failure: never executed again
+    skip: Vec<u64>,
+}
+
+/// The index after the last run a (killed) worker has accounted for in its output file.
+fn resume_point(out: &Path) -> u64 {
+    let txt = std::fs::read_to_string(out).unwrap_or_default();
+    let mut at = 0u64;
+    for line in txt.lines() {
+        match serde_json::from_str::<WorkerLine>(line) {
+            Ok(WorkerLine::Begin { start }) => at = at.max(start),
+            Ok(WorkerLine::Stats(s)) if s.runs > 0 => at = at.max(s.last_idx + 1),
+            _ => {}
+        }
+    }
+    at
 }
 
 fn spawn_worker(
@@ -689,6 +718,7 @@ fn spawn_worker(
     start: u64,
     root: &Path,
     replay_dir: &Path,
+    skip: &[u64],
 ) -> std::io::Result<Child> {
     let out = root.join(format!("w{}.jsonl", shard));
     let journal = root.join(format!("w{}.journal", shard));
@@ -713,6 +743,8 @@ fn spawn_worker(
         .arg(&scratch)
         .arg("--replay-dir")
         .arg(replay_dir)
+        .arg("--skip")
+        .arg(skip.iter().map(|i| i.to_string()).collect::<Vec<_>>().join(","))
         .stdin(std::process::Stdio::null())
         .stdout(std::process::Stdio::null())
         .stderr(std::process::Stdio::null());
@@ -728,44 +760,10 @@ fn spawn_worker(
         last_journal: String::new(),
         last_change: Instant::now(),
         restarts: 0,
+        hang_limit: std::env::var("FLUTE_SIM_HANG_LIMIT_MS").ok().and_then(|v| v.parse().ok()).map(Duration::from_millis).unwrap_or(Duration::from_secs(30)),
+        retry_idx: None,
+        skip: skip.to_vec(),
     })
-}
-
-/// Run a single index in a fresh child with a wall-clock limit. Returns Some(true) if it finished.
-fn confirm_slow_run(exe: &Path, prop: &dyn Prop, a: &CheckArgs, idx: u64, limit: Duration, root: &Path) -> bool {
-    let scratch = root.join("confirm");
-    let mut cmd = std::process::Command::new(exe);
-    cmd.arg("one")
-        .arg(prop.id())
-        .arg(a.tier.name())
-        .arg("--seed")
-        .arg(a.seed.to_string())
-        .arg("--index")
-        .arg(idx.to_string())
-        .arg("--scratch")
-        .arg(&scratch)
-        .stdin(std::process::Stdio::null())
-        .stdout(std::process::Stdio::null())
-        .stderr(std::process::Stdio::null());
-    let mut ch = match cmd.spawn() {
-        Ok(c) => c,
-        Err(_) => return true,
-    };
-    let st = Instant::now();
-    loop {
-        match ch.try_wait() {
-            Ok(Some(_)) => return true,
-            Ok(None) => {
-                if st.elapsed() > limit {
-                    ch.kill().ok();
-                    ch.wait().ok();
-                    return false;
-                }
-                std::thread::sleep(Duration::from_millis(50));
-            }
-            Err(_) => return true,
-        }
-    }
 }
 
 pub fn check(prop: &dyn Prop, a: &CheckArgs) -> i32 {
@@ -789,7 +787,8 @@ pub fn check(prop: &dyn Prop, a: &CheckArgs) -> i32 {
     }
     let known = load_known(&a.verif_root);
     let total = a.runs_override.unwrap_or_else(|| prop.runs(a.tier));
-    let hang_limit = Duration::from_secs(30);
+    // (FLUTE_SIM_HANG_LIMIT_MS: self-test of the restart logic only)
+    let hang_limit = std::env::var("FLUTE_SIM_HANG_LIMIT_MS").ok().and_then(|v| v.parse().ok()).map(Duration::from_millis).unwrap_or(Duration::from_secs(30));
     println!(
         "check {} tier={} VERIF_SEED={} runs={} workers={}",
         prop.id(),
@@ -801,7 +800,7 @@ pub fn check(prop: &dyn Prop, a: &CheckArgs) -> i32 {
 
     let mut children: Vec<Child> = Vec::new();
     for w in 0..a.workers.min(total.max(1)) {
-        match spawn_worker(&exe, prop, a, w, 0, &root, &replay_dir) {
+        match spawn_worker(&exe, prop, a, w, 0, &root, &replay_dir, &[]) {
             Ok(c) => children.push(c),
             Err(e) => {
                 eprintln!("cannot spawn worker: {}", e);
@@ -861,7 +860,10 @@ pub fn check(prop: &dyn Prop, a: &CheckArgs) -> i32 {
                         done[i] = true;
                         continue;
                     }
-                    match spawn_worker(&exe, prop, a, shard, idx + 1, &root, &replay_dir) {
+                    // (from the last accounted run, without the crashing one: no other run is lost)
+                    let mut skip = children[i].skip.clone();
+                    skip.push(idx);
+                    match spawn_worker(&exe, prop, a, shard, resume_point(&children[i].out), &root, &replay_dir, &skip) {
                         Ok(mut c) => {
                             c.restarts = restarts;
                             children[i] = c;
@@ -873,31 +875,40 @@ pub fn check(prop: &dyn Prop, a: &CheckArgs) -> i32 {
                     }
                 }
                 Ok(None) => {
-                    if children[i].last_change.elapsed() > hang_limit && !children[i].last_journal.is_empty() {
+                    if children[i].last_change.elapsed() > children[i].hang_limit && !children[i].last_journal.is_empty() {
                         let idx: u64 = children[i].last_journal.trim().parse().unwrap_or(0);
                         children[i].proc.kill().ok();
                         children[i].proc.wait().ok();
-                        // confirm once in a fresh child with 4x the limit so machine load cannot alarm
-                        let ok = confirm_slow_run(&exe, prop, a, idx, hang_limit * 4, &root);
-                        if !ok {
+                        let shard = children[i].shard;
+                        let restarts = children[i].restarts + 1;
+                        let (resume, limit, retry) = if children[i].retry_idx == Some(idx) {
+                            // second time at the same run, with 4x the limit: machine load does not explain it
                             crash_violations.push((
                                 Violation {
                                     rule: format!("{}/hang", prop.id()),
                                     class: "wall-clock".into(),
-                                    msg: format!(
-                                        "run index {} did not finish within {:?} (confirmed in a fresh process)",
-                                        idx,
-                                        hang_limit * 4
-                                    ),
+                                    msg: format!("run index {} did not finish within {:?} (second attempt in a fresh process)", idx, children[i].hang_limit),
                                 },
                                 idx,
                             ));
+                            children[i].skip.push(idx);
+                            (resume_point(&children[i].out), hang_limit, None)
+                        } else {
+                            // once more from the last accounted run, in a fresh process with 4x the limit: no run and
+                            // no verdict is lost when the machine is merely loaded
+                            (resume_point(&children[i].out), hang_limit * 4, Some(idx))
+                        };
+                        if restarts > 20 {
+                            harness_errors.push(format!("worker {} was restarted more than 20 times", shard));
+                            done[i] = true;
+                            continue;
                         }
-                        let shard = children[i].shard;
-                        let restarts = children[i].restarts + 1;
-                        match spawn_worker(&exe, prop, a, shard, idx + 1, &root, &replay_dir) {
+                        let skip = children[i].skip.clone();
+                        match spawn_worker(&exe, prop, a, shard, resume, &root, &replay_dir, &skip) {
                             Ok(mut c) => {
                                 c.restarts = restarts;
+                                c.hang_limit = limit;
+                                c.retry_idx = retry;
                                 children[i] = c;
                             }
                             Err(e) => {
@@ -929,6 +940,11 @@ pub fn check(prop: &dyn Prop, a: &CheckArgs) -> i32 {
         let mut segments: Vec<WorkerStats> = Vec::new();
         for line in txt.lines() {
             match serde_json::from_str::<WorkerLine>(line) {
+                Ok(WorkerLine::Begin { .. }) => {
+                    if let Some(l) = last.take() {
+                        segments.push(l);
+                    }
+                }
                 Ok(WorkerLine::Stats(s)) => {
                     if let Some(l) = &last {
                         if s.runs < l.runs {
@@ -1048,12 +1064,15 @@ pub fn check(prop: &dyn Prop, a: &CheckArgs) -> i32 {
             None => true,
             Some(old) => (f.tape_len, f.scn_size) < (old.tape_len, old.scn_size),
         };
+        // (a restarted worker may report the same run twice: same file)
         if better {
             if let Some(old) = by_key.get(&k) {
-                std::fs::remove_file(&old.replay).ok();
+                if old.replay != f.replay {
+                    std::fs::remove_file(&old.replay).ok();
+                }
             }
             by_key.insert(k, f);
-        } else {
+        } else if by_key.get(&k).map(|w| w.replay != f.replay).unwrap_or(true) {
             std::fs::remove_file(&f.replay).ok();
         }
     }
